@@ -85,3 +85,91 @@ package blob
 //@   ensures 0 <= result.0 && result.0 <= len(p)
 //@   ensures old(w.err) == nil ==> w.n == old(w.n) + result.0 && w.w.ghost_len == old(w.w.ghost_len) + result.0
 //@   ensures w.size == old(w.size) && w.d == old(w.d)
+
+// ---- file system (trusted, only what is used) -------------------------------------------
+
+//@ extern func io/fs.(FileInfo).Size
+//@   pure reads none
+//@   ensures result >= 0
+//@ extern func io/fs.(FileInfo).ModTime
+//@   pure reads none
+//@ extern func os.Stat
+//@   modifies nothing
+//@   ensures result.1 == nil ==> result.0 != nil
+//@ extern func os.OpenFile
+//@   modifies nothing
+//@   ensures result.1 == nil ==> result.0 != nil && fresh(result.0)
+// a just opened file has accepted no byte through this handle
+//@   ensures result.1 == nil ==> result.0.ghost_len == 0 && result.0.ghost_stream == 0
+//@ extern func os.(*File).Close
+//@   modifies nothing
+//@ extern func os.(*File).Truncate
+//@   modifies nothing
+//@ extern func os.Remove
+//@   modifies nothing
+//@ extern func os.Chtimes
+//@   modifies nothing
+//@ extern func crypto/sha256.New
+//@   modifies nothing
+//@   ensures result != nil && result.ghost_len == 0 && result.ghost_stream == 0 && !tagis(result, "*os.File")
+//@ extern func io.Copy
+//@   modifies boxed(dst)
+//@   ensures result.0 >= 0
+
+//@ extern func (*DiskCache).GetFile
+//@   pure reads none
+
+// ---- copyNamedFile -------------------------------------------------------------------------
+// returns in source order: 1 already there  2 open failed  3 size 0  4 copy error
+// 5 short source  6 close error  7 stored
+//@ func (*DiskCache).copyNamedFile
+//@   requires c.testHookBeforeFinalWrite == nil
+//@   requires 0 <= size && size < (1 << 62)
+// the copy is skipped only for a file of exactly the expected size
+//@   assert-at return #1 : err == nil && info.Size() == size
+// a longer file is cut when it is opened: whatever is on disk when the first byte is written
+// is shorter than size, so that only the final Write can bring the file to size bytes
+//@   assert-at call os.OpenFile #1 : arg0 == name && (mode & 64) != 0 && ((err == nil && info.Size() > size) ==> (mode & 512) != 0)
+// ghost_wrote: the copy was started; ghost_cleaned: Truncate(0) or Remove(name) was issued
+//@   ghost-at entry : ghost_wrote := 0
+//@   ghost-at entry : ghost_cleaned := 0
+//@   ghost-at call io.Copy #1 : ghost_wrote := 1
+//@   assert-at call Truncate #1 : arg0 == f && arg1 == 0
+//@   assert-at call Truncate #2 : arg0 == f && arg1 == 0
+//@   assert-at call os.Remove #1 : arg0 == name
+//@   ghost-at after call Truncate #1 : ghost_cleaned := 1
+//@   ghost-at after call Truncate #2 : ghost_cleaned := 1
+//@   ghost-at after call os.Remove #1 : ghost_cleaned := 1
+// Engine gap (listed assumption): cw.w was assigned f two lines above; the engine keeps the
+// ghost fields of the pointer f and of the interface value that boxes it (after it went
+// through the field cw.w) in different places. They are the same object.
+//@   assume-at call io.Copy #1 : cw.w.ghost_len == f.ghost_len && cw.w.ghost_stream == f.ghost_stream
+// the writer handed to io.Copy satisfies the preconditions of (*checkWriter).Write
+//@   assert-at call io.Copy #1 : cw.err == nil && cw.n == 0 && cw.size == size && size > 0 && cw.d == out && cw.testHookBeforeFinalWrite == nil && cw.w != cw.h
+//@   assert-at call io.Copy #1 : cw.w.ghost_len == 0 && cw.h.ghost_len == 0 && cw.w.ghost_stream == cw.h.ghost_stream
+// every return once the copy was started: nil after a complete, error-free copy and close,
+// or an error after Truncate(0) / Remove(name)
+//@   assert-at return #1 : ghost_wrote == 0
+//@   assert-at return #2 : ghost_wrote == 0
+//@   assert-at return #3 : ghost_wrote == 0 && size == 0
+//@   assert-at return #4 : ghost_cleaned == 1
+//@   assert-at return #5 : ghost_cleaned == 1
+//@   assert-at return #6 : ghost_cleaned == 1
+//@   assert-at return #7 : ghost_wrote == 1 && n == size
+//@   assert-at call Close #2 : n == size && err == nil
+// Glue (listed assumption): io.Copy(cw, file) only calls cw.Write, one call after the other,
+// stops at the first error and returns the sum of the counts and that error. Every clause
+// below is a postcondition of (*checkWriter).Write that is also one of its preconditions
+// (or follows from its modifies clause), i.e. an invariant of any sequence of Write calls
+// that starts in the state asserted at `call io.Copy` above.
+//@   assume-at after call io.Copy #1 : cw.size == size && cw.d == out && cw.testHookBeforeFinalWrite == nil
+//@   assume-at after call io.Copy #1 : cw.err == nil ==> cw.w.ghost_len == cw.n && cw.h.ghost_len == cw.n && cw.w.ghost_stream == cw.h.ghost_stream && 0 <= cw.n && cw.n <= cw.size
+//@   assume-at after call io.Copy #1 : cw.w.ghost_len <= cw.size && (cw.w.ghost_len == cw.size ==> (forall k int :: 0 <= k && k < 32 ==> cw.d.sum[k] == shabyte(cw.w.ghost_stream, k)))
+//@   assume-at after call io.Copy #1 : result.0 == cw.n && (result.1 == nil ==> cw.err == nil)
+// ... hence: on the success path the sink holds exactly size bytes whose SHA-256 is out; on
+// every path a sink of size bytes has that hash
+// (cw.w is the sink, i.e. the file f: `w: f` in the literal, never reassigned)
+//@   assert-at return #7 : cw.w.ghost_len == size && (forall k int :: 0 <= k && k < 32 ==> out.sum[k] == shabyte(cw.w.ghost_stream, k))
+//@   assert-at return #4 : cw.w.ghost_len <= size && (cw.w.ghost_len == size ==> (forall k int :: 0 <= k && k < 32 ==> out.sum[k] == shabyte(cw.w.ghost_stream, k)))
+//@   assert-at return #5 : cw.w.ghost_len < size
+//@   assert-at return #6 : cw.w.ghost_len == size && (forall k int :: 0 <= k && k < 32 ==> out.sum[k] == shabyte(cw.w.ghost_stream, k))
